@@ -1,5 +1,5 @@
-"""C01: every call gets exactly its own replies, in order (see checks/pipecommon.py, proposed/design_pipeobs.md)."""
-from checks import pipecommon
+"""C01: every call gets exactly its own replies, in order (see checks/pipecommon.py, design/pipeobs.md)."""
+from checks import pipecommon, cachecommon
 LEVEL = 'model_checking'
 
 
@@ -12,3 +12,9 @@ def run(ctx):
         modes=['c01', 'c33'],
         neg_traces=['swap-results', 'drop-return'],
         runs_quick=3, runs_thorough=25)
+    # Redis 6 answers a multi-key / EXEC reply with invalidation pushes embedded in the announced array and the displaced
+    # tail after it (redis/redis#8935); the reader's workaround must hand the tail to the same call and the next reply to
+    # the next call. The Redis 6 product of the cache family (CacheR6.tla, replayed on the real client with a probe GET
+    # pipelined behind every broken array) reports a reply handed to the wrong call as `redis6-misrouted-reply ...`;
+    # only those verdicts are kept here (the cache-content verdicts of that product belong to C06).
+    cachecommon.redis6(ctx, only_misrouted=True, validate=False)
